@@ -1,5 +1,7 @@
 import GqlVerif.Props.C17
 import GqlVerif.Proofs.C02Closure
+import GqlVerif.Proofs.C17Fuel
+import GqlVerif.Proofs.C17FuelSpec
 open GqlVerif.C17
 #print axioms search_guarded_eq
 #print axioms search_guarded_total
@@ -10,3 +12,26 @@ open GqlVerif.C17
 #print axioms GqlVerif.C02.responseItems_fuel_sufficient
 #print axioms GqlVerif.C02.fragmentItems_fuel_sufficient
 #print axioms GqlVerif.C02.responseForQuery_fuel
+-- fuel independence, on the model's own functions: above the fuel the model passes the result no longer depends on the
+-- fuel, so the fuel-0 defaults of these walks are never what a caller sees (Proofs/C17Fuel.lean, C17FuelSpec.lean)
+#print axioms GqlVerif.C17F.containsTypenameAux_fuel_indep
+#print axioms GqlVerif.C17F.depthFuel_eq_walkFuel
+#print axioms GqlVerif.C17F.rootFieldCount_fuel_indep
+#print axioms GqlVerif.C17F.rootFieldCount_fuel_indep_op
+#print axioms GqlVerif.C17F.reachesFragment_fuel_indep
+#print axioms GqlVerif.C17F.reachesFragment_fuel_indep_frag
+#print axioms GqlVerif.C17F.fragmentIsRecursive_fuel_indep
+#print axioms GqlVerif.C17F.collectSel_fuel_eq
+#print axioms GqlVerif.C17F.collectSel_fuel_indep
+#print axioms GqlVerif.C17F.collectSels_fuel_indep
+#print axioms GqlVerif.C17F.allUsedTypes_fuel_indep
+#print axioms GqlVerif.C17F.usedInputIds_fuel_indep
+#print axioms GqlVerif.C17F.collectVar_fuel_indep
+#print axioms GqlVerif.C17F.containsWithoutIndirection_fuel_indep
+#print axioms GqlVerif.C17F.inputIsRecursive_fuel_indep
+#print axioms GqlVerif.C17F.depth_hypothesis_needed
+#print axioms GqlVerif.C17F.hasTypename_fuel_indep
+#print axioms GqlVerif.C17F.rootKeys_mem_fuel_indep
+#print axioms GqlVerif.C17F.subscription_rule_fuel_indep
+#print axioms GqlVerif.C17F.validDef_subscription_fuel_indep
+#print axioms GqlVerif.C17F.rootKeys_not_fuel_indep
